@@ -8,7 +8,7 @@ from mc.ref import bus as refbus
 
 ID = "C07"
 LEVEL = "exploration"
-LEVEL_TEXT = ("Complete enumeration of directive (.db/.dw/.dl/.pointer) x list length 1-3 x 19 value kinds per position "
+LEVEL_TEXT = ("Complete enumeration of directive (.db/.dw/.dl/.pointer) x list length 1-3 x 25 value kinds per position "
               "(boundary, wider than the field, negative, backward/forward label, `=` symbol, `:=` constant), all .ascii strings "
               "<=3 over a 9-symbol alphabet (incl. the escaped quote and /* */ inside the string), lists of 4..300 values, and .incbin for every (length, placement, file name) of a boundary family "
               "including lengths that end just before/at/after a bank end, each program assembled by the real assembler and "
@@ -24,7 +24,8 @@ ASSUMPTIONS = ["packing model in this file", "programs start with *= in ROM; lab
 WIDTH = {".db": 1, ".dw": 2, ".dl": 3, ".pointer": 3}
 ORG = 0x018000
 KINDS = [("lit", v) for v in (0, 1, 0xFF, 0x100, 0xFFFF, 0x10000, 0xFFFFFF, 0x1000000, 0x12345678)] + \
-        [("neg", v) for v in (1, 0x80, 0x8000, 0x800000)] + [("back",), ("fwd",), ("eqsym",), ("const",), ("shl",), ("she",)]
+        [("neg", v) for v in (1, 0x80, 0x8000, 0x800000)] + [("back",), ("fwd",), ("eqsym",), ("const",), ("shl",), ("she",)] + \
+        [("expr", t) for t in ("back&0xffffff", "fwd>>8", "back<<1", "fwd*2", "back-1", "back+kc&0xff00")]
 # shl / she: a name that is a `:=` constant in the outer scope and a label / `=` symbol (defined after the directive)
 # in the block that contains the directive - the inner definition is the one the data must use
 KC, KE = 0x123456, 0x654321
@@ -60,6 +61,8 @@ def describe(case, res):
 
 
 def render(kind):
+    if kind[0] == "expr":
+        return kind[1]
     if kind[0] == "lit":
         return hex(kind[1])
     if kind[0] == "neg":
@@ -68,6 +71,9 @@ def render(kind):
 
 
 def value_of(kind, env):
+    if kind[0] == "expr":
+        # conventional precedence (C06): * then + - then << >> then & ; Python's agrees for these operators
+        return eval(kind[1], {"__builtins__": {}}, {"back": env["back"], "fwd": env["fwd"], "kc": env["const"]})  # noqa: S307
     if kind[0] == "lit":
         return kind[1]
     if kind[0] == "neg":
@@ -275,13 +281,17 @@ def run_long_list(d):
             lines = []
             for k in range(0, n, per_line):
                 lines.append(f"{d} " + ", ".join(hex(v) if v >= 0 else "-" + hex(-v) for v in vals[k:k + per_line]))
-            src = f"*=0x{ORG:06x}\n" + "\n".join(lines) + "\nafter:\n.dw 0xEEDD\n"
+            # a long block followed by a SHORTER block elsewhere (each block carries exactly its own bytes)
+            src = f"*=0x{ORG:06x}\n" + "\n".join(lines) + f"\nafter:\n.dw 0xEEDD\n*=0x{ORG + 0x4000:06x}\n{d} 7\n*=0x{ORG + 0x5000:06x}\n.db 9\n"
             exp = b"".join((v % (256 ** w)).to_bytes(w, "little") for v in vals) + b"\xdd\xee"
             out = impl.assemble(src, rom="low_rom")
             evals += 1
+            tail = [(ref.phys(ORG + 0x4000), (7).to_bytes(w, "little")), (ref.phys(ORG + 0x5000), b"\x09")]
             if not out.accepted:
                 viol.append({"key": f"data:rejected:{d}:long-list", "msg": f"{n} values: {out.brief()}"})
-            elif out.blocks != [(ref.phys(ORG), exp)] or dict(out.labels).get("after") != ORG + n * w:
+            elif out.blocks[1:] != tail:
+                viol.append({"key": f"data:wrong-bytes:{d}:short-block-after-long-block", "msg": f"{n} values: later blocks {[(hex(a), b.hex()) for a, b in out.blocks[1:]]}"})
+            elif out.blocks[:1] != [(ref.phys(ORG), exp)] or dict(out.labels).get("after") != ORG + n * w:
                 got = b"".join(b for _, b in out.blocks)
                 where = next((i for i, (x, y) in enumerate(zip(got, exp)) if x != y), min(len(got), len(exp)))
                 viol.append({"key": f"data:wrong-bytes:{d}:long-list",
